@@ -3,6 +3,7 @@ from lib import cfg
 from rules import common
 from rules.C13 import self_mutator_calls, pushed_variants
 
+CRATES = ("agdb",)
 EXPLANATION = (
     "Static analysis of DbImpl's index maintenance: (R11a) every function (and every rollback arm) that calls a "
     "DbKeyValues mutator also performs the matching index maintenance reached through DbIndexes::index_mut on the same "
